@@ -18,9 +18,9 @@ LEVEL_TEXT = ("Edit histories (add / overwrite / rejected add / remove by rule, 
               "points and each method, the edited router and a router freshly built (by the real add/add_hook) from the "
               "reference model's survivors give the same route, parameters, 404/405 and the same hook sequence with the same "
               "prefixes; by-name, by-rule lookups and the route index agree with the model.")
-LEVEL_NOTE = ("Trusted: z3, CrossHair str model, the reference model of surviving routes/hooks in this file. Tolerances: a "
-              "rejected add leaves the rejected (rule, method) unconstrained (model adopts what the router shows for it); "
-              "prefix removal is not applied while a hook lies at/under the prefix (unspecified by the statement).")
+LEVEL_NOTE = ("Trusted: z3, CrossHair str model, the reference model of surviving routes/hooks in this file. A rejected "
+              "registration must leave no trace (the model ignores it). Tolerance: prefix removal is not applied while a hook "
+              "lies at/under the prefix (unspecified by the statement).")
 FUNCTIONS = [
     "ombott.router.radidict:RadiDict.get",
     "ombott.router.radidict:RadiDict._set",
@@ -46,7 +46,7 @@ OUTSIDE = ["rule universes other than the one in this file", "histories beyond t
 BUDGET_S = {"quick": 270, "thorough": 1150}
 
 GET, POST = "GET", "POST"
-ANYM = [GET, POST]     # the method tables are compared concretely in index_checks; lookups use a list that hits any surviving method
+ANYM = [GET, POST, "PUT"]     # the method tables are compared concretely in index_checks; lookups use a list that hits any surviving method
 
 # ---------------------------------------------------------------- universe
 RULES = {
@@ -77,6 +77,10 @@ def ops_universe():
     ops.append(("add", "a/b", POST, "m2", False))          # second name on the same route
     ops.append(("add", "a/:x", GET, "n4", False))
     ops.append(("add", "a", GET, "n2", False))             # name clash when n2 is taken by a/b
+    ops.append(("add", "ab", GET, "n4", False))            # name clash with a rule that is new to the router
+    ops.append(("add", "a/b", (GET, POST), None, False))   # method lists: rejected as a whole when one method is taken
+    ops.append(("add", "a/b", (POST, GET), None, False))
+    ops.append(("add", "a", (POST, "PUT"), None, False))
     ops.append(("clash",))
     ops.append(("syntax",))
     for n in ("n2", "m2", "n4"):
@@ -140,25 +144,18 @@ def apply_op(router, model, op, step):
     tag = "%s@%d" % ("/".join(str(x) for x in op[1:3]), step)
     if kind == "add":
         _, r, meth, name, over = op
+        meths = list(meth) if isinstance(meth, tuple) else [meth]
         try:
-            router.add(rule_text(r), meth, Tag(tag), name=name, overwrite=over)
+            router.add(rule_text(r), meths if isinstance(meth, tuple) else meth, Tag(tag), name=name, overwrite=over)
             ok = True
         except Exception:
             ok = False
         if ok:
-            model.routes.setdefault(r, {})[meth] = tag
+            for m in meths:
+                model.routes.setdefault(r, {})[m] = tag
             if name:
                 model.names[name] = r
-        else:
-            # rejected add: the rejected (rule, method) is unconstrained -> adopt what the router shows for it
-            route = router.routes.get(pattern_of(RULES[r]))
-            rm = route.methods.get(meth) if route is not None else None
-            if rm is not None:
-                model.routes.setdefault(r, {})[meth] = rm.handler.t
-            elif r in model.routes:
-                model.routes[r].pop(meth, None)
-            if route is not None and r not in model.routes:
-                model.routes[r] = {}
+        # a rejected registration must leave no trace: the model is unchanged and the router is compared with it
         return "add" if ok else "add-rejected"
     if kind == "clash":
         try:
